@@ -211,7 +211,11 @@ def precedence(ses, rep):
     flagged = []
     for fname in ("ConfigResolver::load_configuration", "ConfigResolver::load_configuration_for_stdin"):
         ex = ses.executor("bin", "default", hooks=[clihooks.context_passthrough, clihooks.silence_logging],
-                          inline=lambda n, f: canon(n).split("::")[-1] == "get_configuration_search_root")
+                          inline=lambda n, f: canon(n).split("::")[-1] == "get_configuration_search_root" or
+                          # helpers of the resolver that are not part of the documented search are executed in place
+                          (f.name.startswith("config::<impl") and "{closure" not in f.name and
+                           f.name.split("::")[-1] not in ("find_config_file", "lookup_config_file_in_directory", "search_config_locations",
+                                                          "load_configuration", "load_configuration_for_stdin", "new")))
         T = ex.enums
         fn = ses.need(ex, fname)
         me = ex.fresh_lazy("ConfigResolver", "self")
@@ -254,7 +258,23 @@ def precedence(ses, rep):
                 okv = ex.lazy_child(o.state, sres, ("vfield", "Ok", 0), "Option<Config>", ".Ok.0")
                 found = ex.discr(o.state, okv) == 1
                 from_search = isinstance(cfgv, Lazy) and ex.parent.get(cfgv.oid, (None,))[0] == okv.oid
-                from_ec = bool(ecs) and isinstance(cfgv, Lazy) and any(ex.parent.get(cfgv.oid, (None,))[0] == e[2].oid for e in ecs)
+                def through_maps(v, depth=0):
+                    """objects the value was taken from, looking through .map(load_overrides) / .context(..) wrappers"""
+                    seen = set()
+                    while isinstance(v, Lazy) and depth < 8:
+                        o_ = v.oid
+                        while o_ is not None:
+                            seen.add(o_)
+                            root = o_
+                            o_ = ex.parent.get(o_, (None,))[0]
+                        nm = ex.havoc_calls.get(root, ("",))[0].split("::")[-1]
+                        if nm in ("map", "context", "with_context", "map_err"):
+                            v = deref_val(ex, o.state, ex.havoc_snap[root][0])
+                            depth += 1
+                            continue
+                        break
+                    return seen
+                from_ec = bool(ecs) and isinstance(cfgv, Lazy) and any(e[2].oid in through_maps(cfgv) for e in ecs)
                 is_default = isinstance(cfgv, Lazy) and cfgv.oid == dflt.oid
                 opt = ex.lazy_child(None, me, ("field", T.field_index("ConfigResolver", "opt")), "&Opt", ".opt")
                 noec = ex.lazy_child(None, deref_val(ex, None, opt), ("field", T.field_index("Opt", "no_editorconfig")), "bool", ".no_editorconfig")
@@ -295,6 +315,10 @@ def battery():
         ("toml-beats-editorconfig", {".editorconfig": "root = true\n[*.lua]\nindent_style = space\nindent_size = 3\n", "stylua.toml": W2, "f.lua": SRC}, ["f.lua"], {"f.lua": OUT("  ")}),
         ("no-editorconfig", {".editorconfig": "root = true\n[*.lua]\nindent_style = space\nindent_size = 3\n", "f.lua": SRC}, ["--no-editorconfig", "f.lua"], {"f.lua": OUT("\t")}),
         ("defaults", {"f.lua": SRC}, ["f.lua"], {"f.lua": OUT("\t")}),
+        ("editorconfig-per-file", {".editorconfig": "root = true\n[*.lua]\nindent_style = space\nindent_size = 3\n[*_spec.lua]\nindent_style = space\nindent_size = 2\n",
+                                   "d/u.lua": SRC, "d/u_spec.lua": SRC}, ["--num-threads", "1", "d/u.lua", "d/u_spec.lua"], {"d/u.lua": OUT("   "), "d/u_spec.lua": OUT("  ")}),
+        ("editorconfig-per-file-reversed", {".editorconfig": "root = true\n[*.lua]\nindent_style = space\nindent_size = 3\n[*_spec.lua]\nindent_style = space\nindent_size = 2\n",
+                                            "d/u.lua": SRC, "d/u_spec.lua": SRC}, ["--num-threads", "1", "d/u_spec.lua", "d/u.lua"], {"d/u.lua": OUT("   "), "d/u_spec.lua": OUT("  ")}),
         ("two-files-same-dir-cache", {"a/stylua.toml": W3, "a/f.lua": SRC, "a/g.lua": SRC, "h.lua": SRC}, ["a/f.lua", "h.lua", "a/g.lua"],
          {"a/f.lua": OUT("   "), "a/g.lua": OUT("   "), "h.lua": OUT("\t")}),
         ("sibling-not-used", {"a/stylua.toml": W3, "b/f.lua": SRC}, ["b/f.lua"], {"b/f.lua": OUT("\t")}),
@@ -351,7 +375,11 @@ def run(ses, rep):
     rep.outside += ["toml decoding, ec4rs file discovery, the XDG/HOME probing order inside search_config_locations (one symbolic Bool)",
                     "files outside the working directory without --search-parent-directories"]
     flagged = search(ses, rep) + precedence(ses, rep)
-    rep.samples.append({"flagged": [(f[0], f[1]) for f in flagged][:6]})
+    # "with command-line format options overriding whichever was found": every route ends in load_overrides
+    from .. import cfgorigin
+    routes = cfgorigin.analyse(ses, rep)
+    cfgorigin.confirm(rep, routes, "C15")
+    rep.samples.append({"flagged": [(f[0], f[1]) for f in flagged + routes][:6]})
     if flagged:
         sc, v, rec = battery()
         for oid, what, kind, info in flagged:
